@@ -717,6 +717,13 @@ static Boolean LayoutDoubleWord(tStrComp const* pExpr, struct sLayoutCtx* pCtx) 
             goto ToInt;
         }
 
+        /* float-only directive (no integer put function): no string data */
+
+        if (!pCtx->Put32I) {
+            WrStrErrorPos(ErrNum_FloatButString, pExpr);
+            break;
+        }
+
         TranslateString(erg.Contents.str.p_str, erg.Contents.str.len);
 
         for (z = 0; z < erg.Contents.str.len; z++) {
@@ -860,6 +867,13 @@ static Boolean LayoutQuadWord(tStrComp const* pExpr, struct sLayoutCtx* pCtx) {
 
         if (MultiCharToInt(&erg, 8)) {
             goto ToInt;
+        }
+
+        /* float-only directive (no integer put function): no string data */
+
+        if (!pCtx->Put64I) {
+            WrStrErrorPos(ErrNum_FloatButString, pExpr);
+            break;
         }
 
         TranslateString(erg.Contents.str.p_str, erg.Contents.str.len);
